@@ -67,6 +67,8 @@ def _do(obj, act, arg, dtype, is_op):
         return linear_operator.to_dense(r)
     if act == "solve":
         return obj.solve(Z(arg)) if is_op else torch.linalg.solve(obj, Z(arg))
+    if act == "inv_quad_logdet":
+        return obj.inv_quad_logdet(Z(arg), logdet=True)[0] if is_op else torch.linalg.solve(obj, Z(arg))
     if act == "inv_quad":
         return obj.inv_quad(Z(arg)) if is_op else torch.linalg.solve(obj, Z(arg))
     if act == "add_diagonal":
